@@ -282,6 +282,23 @@ def _rand_leaf(rng, n):
     return {"c": "Numpy", "dt": dt, "d": d}
 
 
+def _stride_views(L, rng):
+    """in place: every other 2-dimensional NumpyArray leaf becomes a view into a wider buffer (rows not packed back to back,
+    first element not at the start), as a column range of a NumPy array is"""
+    if L.get("c") == "Numpy" and len(L.get("shape", [])) == 2 and "st" not in L and rng.random() < 0.5:
+        rows, cols = L["shape"]
+        pad = (lambda v: 1 - v) if L["dt"] == "b" else (lambda v: v + 50)
+        buf = [pad(L["d"][0])] if L["d"] else [0]
+        for r in range(rows):
+            row = L["d"][r * cols:(r + 1) * cols]
+            buf += row + [pad(row[-1])]
+        L.update(d=buf, st=[cols + 1, 1], off=1)
+    if "x" in L:
+        _stride_views(L["x"], rng)
+    for x in L.get("xs", []):
+        _stride_views(x, rng)
+
+
 def _rand_layout(rng, depth, allow_record=True, allow_union=False):
     """a random VALID layout (returned with its length), larger and deeper than the model checker's bound: every list class
     and index width, offsets that do not start at zero, gaps / overlaps / out-of-order lists, all five option encodings,
@@ -530,6 +547,7 @@ def record_chains(worker, seed, ntraces, maxops, env=None):
     want = ["json", "type", "valid", "layout"]
     for t in range(ntraces):
         L, _n = _rand_layout(rng, rng.randint(1, 3))
+        _stride_views(L, random.Random(seed * 31 + t))
         ops = [_rand_op(rng) for _ in range(rng.randint(2, maxops))]
         steps = [{"op": "build", "dst": "cur", "layout": L, "want": want}]
         for op, a in ops:
